@@ -10,6 +10,7 @@ import Poly.Model.SigAddr
    peers <seed> <N> <C> <start> <end> <proposers> <table>    -> <list> | panic
    build <blkNum> <N> <C> <seed> <table> <block fields...>   -> ok p=<list> e=<list> c=<list> | err:<class> | panic
    genesis <height> <idx:id,...>                             -> N=<n> C=<c> table=<list>
+   seed <height> <proposer> <root> <vrf> <seed>              -> <seed>   (getParticipantSelectionSeed of that block)
    peerscfg <view> <idx:pubkey:status,...>                   -> <idx:pubkey,...> sorted by index (GetPeersConfig as a set)
    (lists are comma separated, `-` = empty; seed = 128 hex digits)
 -/
@@ -70,6 +71,10 @@ def step (_ : Unit) (toks : List String) : Unit × String :=
       | .panic => ((), "panic")
       | .err cls => ((), "err:" ++ cls)
       | .ok cfg => ((), s!"ok p={showList cfg.proposers} e={showList cfg.endorsers} c={showList cfg.committers}")
+  | ["seed", _height, _proposer, _root, _vrf, seed] =>
+    -- the seed of a block is an input of the model (double SHA-512 of the block's own fields, recomputed independently
+    -- by the harness): the implementation must return exactly it
+    ((), seed)
   | ["peerscfg", _view, pool] =>
     let items : List PoolItem := (splitList pool).map fun t =>
       match t.splitOn ":" with
